@@ -9,14 +9,17 @@
    edge cross product of Tiling.crosses is positive (contains_point accepts when none is negative).
    The bound  dist <= 0.8 * sqrt(area)  is stated in squared form  25 * dist^2 <= 16 * area.
 
+   Covering clause (ChildCover.v): the four children together cover more than half (more than 0.58) of
+   the parent's planar area, witnessed by four pairwise interior-disjoint strictly convex polygons W t,
+   W t inside parent /\ child t; see the statements below for the exact reading.
+
    NOT proved here:
-   - the covering fraction ("the children together cover more than half of the parent");
    - the transfer from the plane to the sphere (distance/area distortion of the polyhedral projection);
    - quintants 1..4 (their rotation matrices are f64 approximations of rotations);
    - parents of depth 29 (cell resolution 30 has no children in the library). *)
-From Coq Require Import ZArith QArith List Bool.
+From Coq Require Import ZArith QArith Qabs List Bool.
 From A5 Require Import Num.NumOps Num.QInst Hilbert.Hilbert Hilbert.LocateProofs Geo.Tiling Geo.AreaProofs
-  Hilbert.ChildProofs.
+  Hilbert.ChildProofs Hilbert.ChildCover.
 Import ListNotations.
 Open Scope Q_scope.
 
@@ -107,3 +110,106 @@ Print Assumptions C12_quintant_to_depth1.
 (* Non-vacuity and meaning of the constants: R0 = 7/20, and 0.64 * A_pent bounds R0^2 from above. *)
 Example C12_constants : R0 == 7 # 20 /\ 25 * (R0 * R0) <= 16 * A_pent /\ 0 < A_pent.
 Proof. repeat split; try reflexivity. apply Qle_bool_iff. vm_compute. reflexivity. Qed.
+
+(* ---------------------------------------------------------------------------------------------------
+   Covering: the children of a cell together cover more than half of the parent's area (planar model).
+
+   Reading.  inside_closed l w: no edge cross product of Tiling.crosses QInst l w is negative (this is the
+   acceptance condition of contains_point).  poly_in l W: every vertex of W is inside_closed l; by
+   C12_inside_closed_convex every convex combination of the vertices of W is then inside_closed l too.
+   convex_pos W: W has at least 3 vertices, every vertex of W is on the inner side of every edge line of W,
+   and lies on exactly two edge lines (its own): W is a strictly convex polygon with the library's winding,
+   so get_area QInst W / 2 is its planar area.  separated W1 W2: some line u1 -> u2 (u1 <> u2) has W1 on
+   one closed side and W2 on the other, so the interiors of W1 and W2 are disjoint.
+   Hence: the four regions W t are pairwise interior-disjoint, W t lies in parent /\ child t, and their
+   areas add up to more than 29/50 (resp. 1/2) of the parent's area.
+
+   Remark (model-level finding).  In the exact rational reading of the f64 constants the four child
+   pentagons are NOT pairwise interior-disjoint: neighbouring children overlap in slivers whose cross
+   products are about 4e-18 (far below f64 resolution).  This is why disjointness is stated for the witness
+   polygons (each inside a child shrunk by the factor 1 - 2^-24 about its centre) and not for the children.
+   Likewise the quintant-0 triangle is not vertex-wise inside the face pentagon (cross product -1.1e-16). *)
+Theorem C12_inside_closed_convex : forall (l : list qp) (ws : list (Q * qp)),
+  wsum ws == 1 -> (forall wp, In wp ws -> 0 <= fst wp) ->
+  (forall wp, In wp ws -> inside_closed l (snd wp)) ->
+  inside_closed l (wpt ws).
+Proof. exact inside_closed_convex. Qed.
+Print Assumptions C12_inside_closed_convex.
+
+(* Parent and the four children share one of 48 normalised parent states and one translation. *)
+Theorem C12_children_offset_finite : forall (n : nat) (o s : Z),
+  (1 <= n <= 28)%nat -> (0 <= o < 6)%Z -> (0 <= s < 4 ^ Z.of_nat n)%Z ->
+  exists G st, In st parent_states /\
+    s_to_anchor s n o = shift_anchor G (st_parent st) /\
+    forall t, (0 <= t < 4)%Z ->
+      s_to_anchor (4 * s + t) (S n) o = shift_anchor (vsc 2 G) (st_child (st_with st (adj_t o t))).
+Proof. exact children_offset_finite. Qed.
+Print Assumptions C12_children_offset_finite.
+
+(* Covering with the certified bound 29/50 = 0.58 (the minimum over the 48 states is 0.58197...). *)
+Theorem C12_children_cover : forall (n : nat) (o s : Z),
+  (1 <= n <= 28)%nat -> (0 <= o < 6)%Z -> (0 <= s < 4 ^ Z.of_nat n)%Z ->
+  exists (lp : list qp) (lc W : Z -> list qp),
+    get_pentagon_vertices QInst (Z.of_nat n) 0 (s_to_anchor s n o) = Some lp /\
+    (forall t, (0 <= t < 4)%Z ->
+       get_pentagon_vertices QInst (Z.of_nat (S n)) 0 (s_to_anchor (4 * s + t) (S n) o) = Some (lc t) /\
+       poly_in lp (W t) /\ poly_in (lc t) (W t) /\ convex_pos (W t)) /\
+    (forall t1 t2, (0 <= t1 < 4)%Z -> (0 <= t2 < 4)%Z -> t1 <> t2 -> separated (W t1) (W t2)) /\
+    (29 # 50) * (get_area QInst lp / 2) <
+      get_area QInst (W 0%Z) / 2 + get_area QInst (W 1%Z) / 2 + get_area QInst (W 2%Z) / 2 + get_area QInst (W 3%Z) / 2.
+Proof. exact children_cover. Qed.
+Print Assumptions C12_children_cover.
+
+(* The property as stated: more than half of the parent's planar area. *)
+Theorem C12_children_cover_half : forall (n : nat) (o s : Z),
+  (1 <= n <= 28)%nat -> (0 <= o < 6)%Z -> (0 <= s < 4 ^ Z.of_nat n)%Z ->
+  exists (lp : list qp) (lc W : Z -> list qp),
+    get_pentagon_vertices QInst (Z.of_nat n) 0 (s_to_anchor s n o) = Some lp /\
+    (forall t, (0 <= t < 4)%Z ->
+       get_pentagon_vertices QInst (Z.of_nat (S n)) 0 (s_to_anchor (4 * s + t) (S n) o) = Some (lc t) /\
+       poly_in lp (W t) /\ poly_in (lc t) (W t) /\ convex_pos (W t)) /\
+    (forall t1 t2, (0 <= t1 < 4)%Z -> (0 <= t2 < 4)%Z -> t1 <> t2 -> separated (W t1) (W t2)) /\
+    (get_area QInst lp / 2) / 2 <
+      get_area QInst (W 0%Z) / 2 + get_area QInst (W 1%Z) / 2 + get_area QInst (W 2%Z) / 2 + get_area QInst (W 3%Z) / 2.
+Proof. exact children_cover_half. Qed.
+Print Assumptions C12_children_cover_half.
+
+(* Resolution 1 -> 2: the four depth-1 pentagons cover more than 0.79 of the quintant-0 triangle. *)
+Theorem C12_quintant_children_cover : forall (o : Z), (0 <= o < 6)%Z ->
+  exists (lq : list qp) (lc W : Z -> list qp),
+    get_quintant_vertices QInst 0 = Some lq /\
+    (forall s, (0 <= s < 4)%Z ->
+       get_pentagon_vertices QInst 1 0 (s_to_anchor s 1 o) = Some (lc s) /\
+       poly_in lq (W s) /\ poly_in (lc s) (W s) /\ convex_pos (W s)) /\
+    (forall s1 s2, (0 <= s1 < 4)%Z -> (0 <= s2 < 4)%Z -> s1 <> s2 -> separated (W s1) (W s2)) /\
+    (79 # 100) * (get_area QInst lq / 2) <
+      get_area QInst (W 0%Z) / 2 + get_area QInst (W 1%Z) / 2 + get_area QInst (W 2%Z) / 2 + get_area QInst (W 3%Z) / 2.
+Proof. exact quintant_children_cover. Qed.
+Print Assumptions C12_quintant_children_cover.
+
+(* Resolution 0 -> 1, quintant 0's share: a convex polygon inside both the face pentagon and the quintant-0
+   triangle has more than 0.1999 of the face's area; the triangle's area is 1/5 of the face's within 1e-15. *)
+Theorem C12_face_quintant_cover :
+  exists (lf lq W : list qp),
+    get_face_vertices QInst = Some lf /\ get_quintant_vertices QInst 0 = Some lq /\
+    poly_in lf W /\ poly_in lq W /\ convex_pos W /\
+    (1999 # 10000) * (get_area QInst lf / 2) < get_area QInst W / 2 /\
+    Qabs (get_area QInst lq / 2 - (get_area QInst lf / 2) / 5) <= eps15 * ((get_area QInst lf / 2) / 5).
+Proof. exact face_quintant_cover. Qed.
+Print Assumptions C12_face_quintant_cover.
+
+(* Non-vacuity of the predicates: the unit-like triangle is convex_pos in the library's winding, and two
+   triangles on either side of a line are separated. *)
+Example C12_cover_predicates :
+  convex_pos [(0, 0); (0, 1); (1, 0)] /\ ~ convex_pos [(0, 0); (1, 0); (0, 1)] /\
+  ~ convex_pos [(0, 0); (0, 1); (1, 0); (0, 0); (0, 1); (1, 0)] /\
+  separated [(0, 0); (0, 1); (1, 0)] [(0, 0); (-1, 0); (0, 1)] /\
+  0 < get_area QInst [(0, 0); (0, 1); (1, 0)].
+Proof.
+  split; [apply convex_pos_b_ok; vm_compute; reflexivity|].
+  split; [intros [_ [H _]]; apply Forall_inv_tail in H; apply Forall_inv_tail in H; apply Forall_inv in H;
+          apply Forall_inv in H; vm_compute in H; apply H; reflexivity|].
+  split; [intros [_ [_ H]]; apply Forall_inv in H; vm_compute in H; discriminate|].
+  split; [apply (separated_b_ok ((0, 0), (0, 1))); vm_compute; reflexivity|].
+  vm_compute. reflexivity.
+Qed.
